@@ -104,8 +104,10 @@ SyncOld(F, ok) == IF cur # 0 /\ ok THEN [F EXCEPT ![cur].synced = Len(F[cur].cel
 Outcomes == {"ok", "fail", "torn"}
 NFaults(r) == Cardinality({k \in {"sync", "create", "hdr", "app"} : r[k] # "ok"})
 
-Handle(r) ==
-  /\ queue # <<>> /\ since < MaxBatch
+(* imm = FALSE: always-fsync (the ack waits for the batch fsync);                 *)
+(* imm = TRUE : EverySecond / No policies (WalPolicy.tla): ack right after append *)
+HandleG(r, imm) ==
+  /\ queue # <<>> /\ (imm \/ since < MaxBatch)
   /\ faults + NFaults(r) <= MaxFaults
   /\ LET w == Head(queue)
          rotate == NeedsNew
@@ -141,13 +143,16 @@ Handle(r) ==
        /\ faults' = faults + NFaults(r)
        /\ IF appOk
           THEN /\ cur' = target /\ roll' = FALSE
-               /\ pend' = pend \cup {w} /\ since' = since + 1 /\ ack' = ack
+               /\ IF imm THEN pend' = pend /\ since' = 1 /\ ack' = [ack EXCEPT ![w] = "ok"]
+                         ELSE pend' = pend \cup {w} /\ since' = since + 1 /\ ack' = ack
           ELSE /\ ack' = [ack EXCEPT ![w] = "err"]
                /\ pend' = pend /\ since' = since
                /\ IF abort THEN cur' = cur /\ roll' = roll
                   ELSE IF ~fileOk THEN cur' = 0 /\ roll' = FALSE            \* rotate() left no writer
                   ELSE IF Dev("drop_writer_on_failed_append") THEN cur' = 0 /\ roll' = FALSE
                   ELSE cur' = target /\ roll' = TRUE                        \* keep it for the batch fsync
+
+Handle(r) == HandleG(r, FALSE)
 
 (* flush_group_commit: one fsync of the current file resolves all pending. *)
 Flush(ok) ==
